@@ -107,7 +107,7 @@ TESTED_NOT_PROVED = [
     "case with default options, and the str-* oracle requires exactly one '>>' in what its_to_rsmi writes",
     "implicit_hydrogen keeps every non-hydrogen atom's total H on graphs whose hydrogens have one bond: oracle on every ih case (theorem C01_implicit_hydrogen for all well-formed graphs)",
 ]
-LEVEL_TEXT = ("Machine-checked proof (Coq, 56 theorems) over an executable model of ITSConstruction.construct/ITSGraph and its_decompose: for all well-formed "
+LEVEL_TEXT = ("Machine-checked proof (Coq, 57 theorems) over an executable model of ITSConstruction.construct/ITSGraph and its_decompose: for all well-formed "
               "reactant/product graphs on the same node set with positive bond orders, decompose(construct(G,H)) returns exactly G and H "
               "(atoms, element, aromaticity, hydrogen count, charge, atom_map = node id, every bond with its order) - for every value of "
               "ignore_aromaticity, balance_its, store and attributes_defaults; the ITS has exactly the union of the nodes and bonds, every bond "
@@ -321,6 +321,12 @@ def graph_clauses(G, H, opts=None):
     its = ITSConstruction.ITSGraph(G, H) if opts is None else E.call_construct(G, H, opts)
     ia = bool(opts and opts.get("ia"))
     g2, h2 = its_decompose(its)
+    # "returns exactly the original two graphs": the caller's own objects must not have been edited by the two calls either
+    # (audit remark: monitor G == G0 and H == H0; construct works on a deepcopy of the base, its_decompose builds new graphs)
+    for side, X, X0 in (("reactant", G, G0), ("product", H, H0)):
+        if (dict((n, dict(d)) for n, d in X.nodes(data=True)) != dict((n, dict(d)) for n, d in X0.nodes(data=True))
+                or _edge_map(X) != _edge_map(X0) or X.number_of_edges() != X0.number_of_edges()):
+            fails.append(dict(clause="argument-mutated", detail="%s graph was edited in place by ITSGraph / its_decompose" % side))
     G, H = G0, H0
     _cmp_graph("reactant", G, g2, fails)
     _cmp_graph("product", H, h2, fails)
